@@ -86,6 +86,7 @@ fn run_g<C: Codec>(c: &Case, trace: bool) -> RunOut {
         }
     };
     let bytes = vb1.as_ref().to_vec();
+    out.mix(&bytes);
     if vb2.as_ref() != bytes.as_slice() {
         out.violate(sig("repeat-differs"), "two invocations of encode() returned different bytes".to_string());
     }
